@@ -373,6 +373,7 @@ pub fn run(cx: &mut Ctx) {
     }
     crate::rules::lexer_rules::byte_accounting(cx, "C03.N2");
     discharge_some(cx);
+    discharge_digits(cx);
     discharge_constants(cx);
     action_unwraps(cx);
     nullable_ranges(cx);
@@ -975,6 +976,62 @@ fn discharge_some(cx: &mut Ctx) {
                 cx.fail(rule, &format!("{}/entry", rule), rel, "consume_character / eat_single_char are reachable without a character established in window[0] (unreachable_unchecked would be undefined behaviour)");
             }
         }
+    }
+}
+
+/// D.digits: the unwraps on number conversions in lex_normal_number are reached only with digit-only text.
+fn discharge_digits(cx: &mut Ctx) {
+    let rule = "C03.D.digits";
+    cx.rule(rule, "D.digits: in Lexer::lex_normal_number every `.unwrap()` on a conversion of the collected text (f64::from_str / str::parse) sits in the branch where the float part ('.', exponent letter, sign — the `if` whose body pushes non-digit characters onto the text) was NOT taken, so the text is what radix_run(10) returned; the conversion of a text with a float part goes through map_err(..)? instead");
+    cx.floor(rule, 2);
+    let Ok(lx) = sm::load(&cx.repo, "parser/src/lexer.rs") else { return cx.anchor_missing(rule, "parser/src/lexer.rs") };
+    let Some(m) = lx.method("Lexer", "lex_normal_number") else { return cx.anchor_missing(rule, "Lexer::lex_normal_number") };
+    // the float split: the outermost `if` whose then-branch pushes onto the text
+    let mut text_var = String::new();
+    let mut float_cond: Option<String> = None;
+    sm::for_each_expr_with_conds(&m.block, &mut |e, conds| {
+        if let syn::Expr::If(i) = e {
+            if conds.is_empty() && float_cond.is_none() {
+                let mut pushes = None;
+                sm::for_each_stmt_in_block(&i.then_branch, &mut |_| {});
+                for st in &i.then_branch.stmts {
+                    let t = sm::tsc(st);
+                    if let Some(k) = t.find(".push(") {
+                        let recv: String = t[..k].chars().rev().take_while(|c| c.is_alphanumeric() || *c == '_').collect::<String>().chars().rev().collect();
+                        pushes = Some(recv);
+                        break;
+                    }
+                }
+                if let Some(v) = pushes {
+                    text_var = v;
+                    float_cond = Some(sm::tsc(&i.cond));
+                }
+            }
+        }
+    });
+    let Some(fc) = float_cond else {
+        return cx.fail(rule, &format!("{}/float-split", rule), &lx.loc(m), "lex_normal_number has no top-level `if` that appends the float part to the text (fail closed)");
+    };
+    let mut n = 0;
+    sm::for_each_expr_with_conds(&m.block, &mut |e, conds| {
+        if let syn::Expr::MethodCall(mc) = e {
+            if mc.method == "unwrap" || mc.method == "expect" {
+                let r = sm::tsc(&mc.receiver);
+                let converts = (r.contains("from_str(") || r.contains(".parse::<") || r.contains(".parse()")) && r.contains(&text_var);
+                if converts {
+                    n += 1;
+                    if conds.iter().any(|c| *c == format!("!{}", fc)) {
+                        cx.ok(rule, &format!("`{}.unwrap()` only where the float part was not taken (`!({})`)", r, fc));
+                    } else {
+                        cx.fail(rule, &format!("{}/unwrap-after-float-part", rule), &lx.loc(e), &format!("`{}.{}()` is reachable after the float part was appended to the text (conditions: {:?}): a text such as `1.e` does not convert and the unwrap panics (e.g. `1.ej`)", r, mc.method, conds));
+                    }
+                }
+            }
+        }
+    });
+    if n == 0 {
+        cx.ok(rule, "no unwrap on a conversion of the number text");
+        cx.ok(rule, "(nothing to discharge)");
     }
 }
 
